@@ -40,7 +40,7 @@ class Server(object):
         try:
             is_ok = True
             result = getattr(self, name)(*args, **kwargs)
-        except (Exception, SystemExit) as e:  # code run on behalf of a request (eval, module imports) must not end the server
+        except BaseException as e:  # code run on behalf of a request (eval, module imports) must not end the server
             logger.exception('%s error', name)
             is_ok = False
             result = e.__class__.__name__, str(e)
